@@ -55,13 +55,13 @@ def observable(dev):
     return ('matrix', tuple(tuple(c) for c in dev.cells))
 
 
-def round_trip(w, set_captured, set_replay):
+def round_trip(w, set_captured, set_replay, capture=None):
     """-> None | (kind, detail, text)"""
     for d in w.devices:
         set_captured(d)
     want = {d.label: observable(d) for d in w.devices}
     try:
-        text = ScriptSnapshot().generate(None).text
+        text = ScriptSnapshot().generate(None).text if capture is None else capture()
     except Exception as ex:
         return ('capture-raises', repr(ex), '')
     for d in w.devices:
@@ -229,6 +229,52 @@ def _worker_shared_colours(rank, n, tier):
     return st
 
 
+def _worker_web_capture(rank, n, tier):
+    """The web Capture button (WebApp.snapshot writes <script_path>/__snapshot__.ls) pressed several times in a row
+    with different light states: what the file holds after the last capture restores the last captured state."""
+    import os
+    import shutil
+    import tempfile
+    from .. import flaskstub
+    flaskstub.install()
+    from web import web_app
+    st = dict(cases=0, viol={})
+    workdir = tempfile.mkdtemp(prefix='c18web_', dir='/var/tmp')
+    try:
+        idx = 0
+        for pop_kinds in (('plain',), ('strip2',), ('matrix2x2',), ('plain', 'strip8'), ('strip9', 'matrix2x5', 'plain')):
+            idx += 1
+            if idx % n != rank % n:
+                continue
+            pop = tuple(KINDS[k]('L%d' % i) for i, k in enumerate(pop_kinds))
+            w = world.World(pop, overrides={'manifest_file_name': None, 'script_path': workdir})
+            app = web_app.WebApp()
+            path = os.path.join(workdir, '__snapshot__.ls')
+
+            def capture():
+                app.snapshot()
+                return open(path).read()
+            states = {'zero': lambda d: d.reset_state(),
+                      'full': lambda d: (setattr(d, 'color', [65535] * 4), setattr(d, 'power', 65535),
+                                         setattr(d, 'zones', [[65535] * 4 for _ in d.zones]),
+                                         setattr(d, 'cells', [[65535] * 4 for _ in d.cells])),
+                      'other': lambda d: apply_state(d, 12345)}
+            for history in itertools.permutations(states, 2):
+                if os.path.exists(path):
+                    os.remove(path)
+                for name in history[:-1]:
+                    for d in w.devices:
+                        states[name](d)
+                    capture()
+                st['cases'] += 1
+                bad = round_trip(w, states[history[-1]], states['other' if history[-1] != 'other' else 'zero'], capture)
+                if bad:
+                    _note(st, (bad[0] + ':after-an-earlier-capture', bad[1] + ' (captures: %s)' % ' then '.join(history), bad[2]))
+    finally:
+        shutil.rmtree(workdir, ignore_errors=True)
+    return st
+
+
 LOADED = ['\\', '#', '{', '}', '[', ']', ':', '*', ' ', '%', "'", '-']
 
 
@@ -277,6 +323,7 @@ def run(tier, seed):
         'populations': par.run(_worker_populations, (tier,)),
         'names': par.run(_worker_names, (tier,)),
         'shared-colours': par.run(_worker_shared_colours, (tier,)),
+        'web-capture': par.run(_worker_web_capture, (tier,), nproc=5),
     }
     viol = {}
     per = {}
@@ -300,7 +347,7 @@ def run(tier, seed):
         'rule': 'one capture->compile->replay round trip per case: each raw component over all 65536 values (two backgrounds); all 6^4 '
                 'boundary combinations x power x {plain, 2-zone strip, 2x2 matrix} x replay-time states; all populations of <=3 lights over 9 '
                 'light kinds x 3 states x 3 replay-time states; every Latin-1 character (control characters included; not NUL, quote, CR, LF) and four beyond Latin-1 in 4 name positions x 3 light kinds; every ordered population of 2..3 lights over '
-                '{plain, 1-zone, 2-zone, 1x1 matrix} x every colouring of all their zones/cells/colours from a palette of 2 (thorough 3) colours',
+                '{plain, 1-zone, 2-zone, 1x1 matrix} x every colouring of all their zones/cells/colours from a palette of 2 (thorough 3) colours; the web Capture handler pressed twice with different states (longer then shorter script and the reverse)',
         'exhaustive': True,
         'round_trips_per_part': per,
         'samples': ['units raw hue 12345 saturation 65535 brightness 1 kelvin 2700 set "Lamp" on "Lamp"'],
